@@ -39,6 +39,19 @@ CHECKS["C19"] = ("other", "who-may-call/decoder-choice rule, dataflow rule for t
                  "Structural: decoder variant, truncation point, whole-field slicing and the normalisation table (incl. idempotence and scalar closure by interval arithmetic) are decided; Shift-JIS tables are encoding_rs's.",
                  "encoding_rs Shift-JIS correctness; Iterator::position semantics", "3 C19")
 
+CHECKS["C07"] = ("other", "who-may-call (raw Read::read, read_to_end), MIR must-pass-through of the terminator read on every path to the Ok return, structured exit rules for the event loop and skip block, no-blocking and required-slot rules for the .slpp reader",
+                 "Structural: Ok requires the closing brace to have been read, nothing in the reader is short-read sensitive or waits; that every prefix of every file is rejected depends on lengths the file declares and is not decided.",
+                 "byteorder/read_exact return UnexpectedEof on short input; tar/arrow2 iterators consume or end; arrow2 validates batch body lengths", "3 C07")
+CHECKS["C08"] = ("other", "dataflow rule for the payload buffer size source, effect analysis of parse_event outside the known-event arms, cursor-usage rule for prefix readers, threshold rule for monotone version gates (+E5), length-equality trigger rule",
+                 "Structural necessary conditions: sizes come from the file's table only, the unknown-event path writes nothing but counters, readers never inspect remaining length, every gate is a literal gte/lt threshold <= 3.16.",
+                 "slice cursor semantics of byteorder on &mut &[u8]", "3 C08")
+CHECKS["C10"] = ("other", "structured single-tail rule for the skip block, linear-expression normalisation of the three advance sites, constructor-argument agreement for the zero-frame columns, writer/reader optionality agreement",
+                 "Structural, weak: both modes share parse_start, event loop and terminator tail; the advance is one value equal to raw_len - bytes_read - (1 + table[GameEnd]); known finding F3 (zero-frame .slpp cannot be re-read) is outstanding.",
+                 "io::copy(take(n)) and seek(Current(n)) advance by n", "3 C10")
+CHECKS["C12"] = ("other", "call-graph rule (one-shot reader built from the four incremental functions, frozen set of extra state writers), who-may-call raw Read::read, linear byte-accounting agreement, push-only rule for the frame-id column",
+                 "Structural: the two APIs run the same code, nothing is short-read sensitive, bytes consumed equal bytes accounted as linear expressions, the frame count is monotone.",
+                 "byteorder/read_exact consume exactly their width/buffer length on success", "3 C12")
+
 PENDING = {}
 
 NOT_APPLICABLE = {
